@@ -4,25 +4,36 @@
    to the generated trigonometric code).  All statements are at
    ROps (Coq's real numbers): for all shapes, all real pixel scales > 0 (<> 0 where that suffices), all real origins. *)
 From Coq Require Import ZArith Reals Lra List Bool QArith.
-From PAV Require Import Base.NumOps Gen.Gen_geometry Model.C02 Model.C02x Proofs.C02 Proofs.C02r.
+From PAV Require Import Base.NumOps Gen.Gen_geometry Model.C02 Model.C02x Proofs.C02 Proofs.C02r Proofs.C02c Proofs.C02n.
+From PAV Require Model.C01.
 Import ListNotations.
 Local Open Scope R_scope.
 
-(* ---- 1. pixel (i,j) has centre  y = o_y + ((H-1)/2 - i) s_y ,  x = o_x + (j - (W-1)/2) s_x *)
-Theorem C02_centre_formula_grid : forall (m : mask) sy sx oy ox, sy <> 0 -> sx <> 0 ->
+
+(* ---- 1. pixel (i,j) has centre  y = o_y + ((H-1)/2 - i) s_y ,  x = o_x + (j - (W-1)/2) s_x : the pixel-centre grid of any mask (row-major over
+   the unmasked pixels), the scalar routine at real-valued pixel positions, and the 1-D counterparts (any origin, any pixel scale) *)
+Theorem C02_centre_formulas :
+  (* centre_formula_grid *)
+  (forall (m : mask) sy sx oy ox, sy <> 0 -> sx <> 0 ->
   @grid_2d_slim_via_mask_from ROps m (sy, sx) (oy, ox) =
-  map (fun p => (oy + (IZR (rows m - 1) / 2 - IZR (fst p)) * sy, ox + (IZR (snd p) - IZR (cols m - 1) / 2) * sx)) (unmasked m).
-Proof. exact grid_mask_centres. Qed.
-Theorem C02_centre_formula_scalar : forall H W sy sx oy ox pi pj, sy <> 0 -> sx <> 0 ->
+  map (fun p => (oy + (IZR (rows m - 1) / 2 - IZR (fst p)) * sy, ox + (IZR (snd p) - IZR (cols m - 1) / 2) * sx)) (unmasked m)) /\
+  (* centre_formula_scalar *)
+  (forall H W sy sx oy ox pi pj, sy <> 0 -> sx <> 0 ->
   @scaled_coordinates_2d_from ROps (pi, pj) (H, W) (sy, sx) (oy, ox) =
-  (oy + (IZR (H - 1) / 2 - pi) * sy, ox + (pj - IZR (W - 1) / 2) * sx).
-Proof. exact scaled2_is_centre. Qed.
-Theorem C02_centre_formula_1d : forall (m : list bool) s o, s <> 0 ->
-  @grid_1d_slim_via_mask_from ROps m s o = map (fun j => o + (IZR j - IZR (Z.of_nat (length m) - 1) / 2) * s) (unmasked1 m).
-Proof. exact grid1_mask_centres. Qed.
-Theorem C02_centre_formula_scalar_1d : forall n s o p, s <> 0 ->
-  @scaled_coordinates_1d_from ROps p n s o = o + (p - IZR (n - 1) / 2) * s.
-Proof. exact scaled1_is_centre. Qed.
+  (oy + (IZR (H - 1) / 2 - pi) * sy, ox + (pj - IZR (W - 1) / 2) * sx)) /\
+  (* centre_formula_1d *)
+  (forall (m : list bool) s o, s <> 0 ->
+  @grid_1d_slim_via_mask_from ROps m s o = map (fun j => o + (IZR j - IZR (Z.of_nat (length m) - 1) / 2) * s) (unmasked1 m)) /\
+  (* centre_formula_scalar_1d *)
+  (forall n s o p, s <> 0 ->
+  @scaled_coordinates_1d_from ROps p n s o = o + (p - IZR (n - 1) / 2) * s).
+Proof. exact (conj grid_mask_centres (conj scaled2_is_centre (conj grid1_mask_centres (scaled1_is_centre)))). Qed.
+
+(* y decreases with the row index, x increases with the column index *)
+Theorem C02_orientation : forall H W sy sx oy ox i i' j j', 0 < sy -> 0 < sx -> (i < i')%Z -> (j < j')%Z ->
+  fst (@centre_spec ROps (H, W) (sy, sx) (oy, ox) (i', j)) < fst (@centre_spec ROps (H, W) (sy, sx) (oy, ox) (i, j)) /\
+  snd (@centre_spec ROps (H, W) (sy, sx) (oy, ox) (i, j)) < snd (@centre_spec ROps (H, W) (sy, sx) (oy, ox) (i, j')).
+Proof. exact orientation. Qed.
 
 (* ---- 2. the reported extent (x_min, x_max, y_min, y_max) is exactly the union of the closed pixel squares *)
 Theorem C02_extent_is_union_of_squares : forall H W sy sx oy ox y x, (1 <= H)%Z -> (1 <= W)%Z -> 0 < sy -> 0 < sx ->
@@ -30,125 +41,389 @@ Theorem C02_extent_is_union_of_squares : forall H W sy sx oy ox y x, (1 <= H)%Z 
   (xmin <= x <= xmax /\ ymin <= y <= ymax) <->
   exists i j, (0 <= i < H)%Z /\ (0 <= j < W)%Z /\ @in_square ROps (H, W) (sy, sx) (oy, ox) (i, j) (y, x) = true.
 Proof. exact extent_is_union_of_squares. Qed.
-Theorem C02_extent_formula : forall H W sy sx oy ox,
-  @Geometry2D_extent ROps (H, W) (sy, sx) (oy, ox) =
-  (ox - IZR W * sx / 2, ox + IZR W * sx / 2, oy - IZR H * sy / 2, oy + IZR H * sy / 2).
-Proof. exact extent2_eq. Qed.
-Theorem C02_extent_1d_is_union_of_intervals : forall n s o x, (1 <= n)%Z -> 0 < s ->
-  let '(xmin, xmax) := @Geometry1D_extent ROps n s o in
-  (xmin <= x <= xmax) <-> exists j, (0 <= j < n)%Z /\ @in_interval ROps (@centre1_spec ROps n s o j) s x = true.
-Proof. exact extent1_is_union_of_intervals. Qed.
 
-(* ---- 3. every coordinate in the (half-open) square of pixel p = (i,j) of the array converts to (i,j) and to the flat index i*W+j:
-        scalar routine, slim-grid routines on one point, and on whole grids *)
-Theorem C02_index_of_interior_point : forall H W sy sx oy ox c p, 0 < sy -> 0 < sx ->
+(* the extent is (o -+ n s / 2); its edges are the outermost pixel centres -/+ half a pixel; every pixel centre of the array lies at least half a pixel inside it *)
+Theorem C02_extent_formula_and_edges :
+  (* extent_formula *)
+  (forall H W sy sx oy ox,
+  @Geometry2D_extent ROps (H, W) (sy, sx) (oy, ox) =
+  (ox - IZR W * sx / 2, ox + IZR W * sx / 2, oy - IZR H * sy / 2, oy + IZR H * sy / 2)) /\
+  (* extent_edges_half_pixel *)
+  (forall H W sy sx oy ox,
+  @Geometry2D_extent ROps (H, W) (sy, sx) (oy, ox) =
+  (@cx_spec ROps W sx ox 0 - sx / 2, @cx_spec ROps W sx ox (IZR (W - 1)) + sx / 2,
+   @cy_spec ROps H sy oy (IZR (H - 1)) - sy / 2, @cy_spec ROps H sy oy 0 + sy / 2)) /\
+  (* centres_half_pixel_inside_extent *)
+  (forall H W sy sx oy ox i j, 0 < sy -> 0 < sx -> (0 <= i < H)%Z -> (0 <= j < W)%Z ->
+  let '(xmin, xmax, ymin, ymax) := @Geometry2D_extent ROps (H, W) (sy, sx) (oy, ox) in
+  let c := @centre_spec ROps (H, W) (sy, sx) (oy, ox) (i, j) in
+  xmin + sx / 2 <= snd c <= xmax - sx / 2 /\ ymin + sy / 2 <= fst c <= ymax - sy / 2).
+Proof. exact (conj extent2_eq (conj extent_edges (centres_half_pixel_inside_extent))). Qed.
+
+(* 1-D: union of the closed pixel intervals; edges = outermost centres -/+ half a pixel *)
+Theorem C02_extent_1d :
+  (* extent_1d_is_union_of_intervals *)
+  (forall n s o x, (1 <= n)%Z -> 0 < s ->
+  let '(xmin, xmax) := @Geometry1D_extent ROps n s o in
+  (xmin <= x <= xmax) <-> exists j, (0 <= j < n)%Z /\ @in_interval ROps (@centre1_spec ROps n s o j) s x = true) /\
+  (* extent_edges_half_pixel_1d *)
+  (forall n s o,
+  @Geometry1D_extent ROps n s o = (@cx_spec ROps n s o 0 - s / 2, @cx_spec ROps n s o (IZR (n - 1)) + s / 2)).
+Proof. exact (conj extent1_is_union_of_intervals (extent1_edges)). Qed.
+
+(* ---- 3. EVERY coordinate of the (half-open) extent has its pixel: the index it converts to is a pixel of the array, the point lies in that
+   pixel's half-open square, and the flattened index is i * W + j -- no hypothesis about a pixel, only about the extent *)
+Theorem C02_every_point_of_extent_has_its_pixel : forall H W sy sx oy ox y x, 0 < sy -> 0 < sx ->
+  let '(xmin, xmax, ymin, ymax) := @Geometry2D_extent ROps (H, W) (sy, sx) (oy, ox) in
+  ymin < y <= ymax -> xmin <= x < xmax ->
+  let p := @pixel_coordinates_2d_from ROps (y, x) (H, W) (sy, sx) (oy, ox) in
+  in_array (H, W) p /\ in_pixel (H, W) (sy, sx) (oy, ox) p (y, x) /\
+  @grid_pixel_indexes_2d_slim_from ROps [(y, x)] (H, W) (sy, sx) (oy, ox) = [IZR (fst p * W + snd p)].
+Proof. exact every_point_of_extent. Qed.
+Theorem C02_every_point_of_extent_has_its_pixel_1d : forall n s o x, 0 < s ->
+  let '(xmin, xmax) := @Geometry1D_extent ROps n s o in
+  xmin <= x < xmax ->
+  let j := @pixel_coordinates_1d_from ROps x n s o in
+  (0 <= j < n)%Z /\ @cx_spec ROps n s o (IZR j) - s / 2 <= x < @cx_spec ROps n s o (IZR j) + s / 2.
+Proof. exact every_point_of_extent_1d. Qed.
+
+(* the pixel is unique: half-open squares of distinct pixels are disjoint *)
+Theorem C02_pixel_of_point_unique : forall H W sy sx oy ox p q c, 0 < sy -> 0 < sx ->
+  in_pixel (H, W) (sy, sx) (oy, ox) p c -> in_pixel (H, W) (sy, sx) (oy, ox) q c -> p = q.
+Proof. exact in_pixel_unique. Qed.
+
+(* every coordinate in the half-open square of pixel p = (i,j) of the array converts to (i,j) and to the flat index i*W+j: scalar routine,
+   slim-grid routines on one point, and on whole grids *)
+Theorem C02_index_of_interior_points :
+  (* index_of_interior_point *)
+  (forall H W sy sx oy ox c p, 0 < sy -> 0 < sx ->
   in_array (H, W) p -> in_pixel (H, W) (sy, sx) (oy, ox) p c ->
   @pixel_coordinates_2d_from ROps c (H, W) (sy, sx) (oy, ox) = p /\
   @grid_pixel_centres_2d_slim_from ROps [c] (H, W) (sy, sx) (oy, ox) = [(IZR (fst p), IZR (snd p))] /\
-  @grid_pixel_indexes_2d_slim_from ROps [c] (H, W) (sy, sx) (oy, ox) = [IZR (fst p * W + snd p)].
-Proof. exact index_of_interior_point. Qed.
-Theorem C02_index_of_interior_points : forall H W sy sx oy ox g ps, 0 < sy -> 0 < sx ->
+  @grid_pixel_indexes_2d_slim_from ROps [c] (H, W) (sy, sx) (oy, ox) = [IZR (fst p * W + snd p)]) /\
+  (* index_of_interior_points *)
+  (forall H W sy sx oy ox g ps, 0 < sy -> 0 < sx ->
   Forall2 (fun c p => in_array (H, W) p /\ in_pixel (H, W) (sy, sx) (oy, ox) p c) g ps ->
   @grid_pixel_centres_2d_slim_from ROps g (H, W) (sy, sx) (oy, ox) = map (fun p => (IZR (fst p), IZR (snd p))) ps /\
-  @grid_pixel_indexes_2d_slim_from ROps g (H, W) (sy, sx) (oy, ox) = map (fun p => IZR (fst p * W + snd p)) ps.
-Proof. exact index_of_interior_points. Qed.
+  @grid_pixel_indexes_2d_slim_from ROps g (H, W) (sy, sx) (oy, ox) = map (fun p => IZR (fst p * W + snd p)) ps).
+Proof. exact (conj index_of_interior_point (index_of_interior_points)). Qed.
 Theorem C02_index_of_interior_point_1d : forall n s o x j, 0 < s -> (0 <= j)%Z ->
   @cx_spec ROps n s o (IZR j) - s / 2 <= x < @cx_spec ROps n s o (IZR j) + s / 2 ->
   @pixel_coordinates_1d_from ROps x n s o = j.
 Proof. exact pix1_inside. Qed.
 
-(* ---- 4. pixel centre -> index -> centre and index -> centre -> index are the identity *)
-Theorem C02_index_centre_index : forall H W sy sx oy ox i j, 0 < sy -> 0 < sx -> (0 <= i)%Z -> (0 <= j)%Z ->
-  @pixel_coordinates_2d_from ROps (@scaled_coordinates_2d_from ROps (IZR i, IZR j) (H, W) (sy, sx) (oy, ox)) (H, W) (sy, sx) (oy, ox) = (i, j).
-Proof. exact pix2_of_centre. Qed.
-Theorem C02_centre_index_centre : forall H W sy sx oy ox i j, 0 < sy -> 0 < sx -> (0 <= i)%Z -> (0 <= j)%Z ->
+(* OUTSIDE the extent (what int() = truncation toward zero does; the property claims nothing there): a point less than one pixel below the
+   low edge still converts to index 0 -- a valid index although the point is outside --; one pixel or more below: a negative index; at or
+   above the high edge: an index >= n *)
+Theorem C02_index_outside_extent_1d : forall n s o x, 0 < s ->
+  (@lo_spec ROps n s o - s < x < @lo_spec ROps n s o -> @pixel_coordinates_1d_from ROps x n s o = 0%Z) /\
+  (x <= @lo_spec ROps n s o - s -> (@pixel_coordinates_1d_from ROps x n s o <= -1)%Z) /\
+  (@hi_spec ROps n s o <= x -> (n <= @pixel_coordinates_1d_from ROps x n s o)%Z).
+Proof. exact index_outside_extent_1d. Qed.
+
+(* ---- 4. pixel centre -> index -> centre and index -> centre -> index are the identity (2-D, 1-D) *)
+Theorem C02_round_trips :
+  (* index_centre_index *)
+  (forall H W sy sx oy ox i j, 0 < sy -> 0 < sx -> (0 <= i)%Z -> (0 <= j)%Z ->
+  @pixel_coordinates_2d_from ROps (@scaled_coordinates_2d_from ROps (IZR i, IZR j) (H, W) (sy, sx) (oy, ox)) (H, W) (sy, sx) (oy, ox) = (i, j)) /\
+  (* centre_index_centre *)
+  (forall H W sy sx oy ox i j, 0 < sy -> 0 < sx -> (0 <= i)%Z -> (0 <= j)%Z ->
   let c := @centre_spec ROps (H, W) (sy, sx) (oy, ox) (i, j) in
   let p := @pixel_coordinates_2d_from ROps c (H, W) (sy, sx) (oy, ox) in
-  @scaled_coordinates_2d_from ROps (IZR (fst p), IZR (snd p)) (H, W) (sy, sx) (oy, ox) = c.
-Proof. exact centre_of_pix2_of_centre. Qed.
-Theorem C02_index_centre_index_1d : forall n s o j, 0 < s -> (0 <= j)%Z ->
-  @pixel_coordinates_1d_from ROps (@scaled_coordinates_1d_from ROps (IZR j) n s o) n s o = j.
-Proof. exact pix1_of_centre. Qed.
-(* array form: the pixel-centre grid of ANY mask converts back to the (row, column) of each unmasked pixel, in row-major
-   order, and to its flat index row * W + column *)
-Theorem C02_grid_of_mask_indexes_to_itself : forall (m : mask) sy sx oy ox, 0 < sy -> 0 < sx ->
+  @scaled_coordinates_2d_from ROps (IZR (fst p), IZR (snd p)) (H, W) (sy, sx) (oy, ox) = c) /\
+  (* index_centre_index_1d *)
+  (forall n s o j, 0 < s -> (0 <= j)%Z ->
+  @pixel_coordinates_1d_from ROps (@scaled_coordinates_1d_from ROps (IZR j) n s o) n s o = j).
+Proof. exact (conj pix2_of_centre (conj centre_of_pix2_of_centre (pix1_of_centre))). Qed.
+
+(* array form: the pixel-centre grid of ANY mask converts back to the (row, column) of each unmasked pixel, in row-major order, and to its
+   flat index row * W + column; 1-D: back to the indices of the unmasked pixels *)
+Theorem C02_grid_of_mask_indexes_to_itself :
+  (* grid_of_mask_indexes_to_itself *)
+  (forall (m : mask) sy sx oy ox, 0 < sy -> 0 < sx ->
   let g := @grid_2d_slim_via_mask_from ROps m (sy, sx) (oy, ox) in
   @grid_pixel_centres_2d_slim_from ROps g (rows m, cols m) (sy, sx) (oy, ox) = map (fun p => (IZR (fst p), IZR (snd p))) (unmasked m) /\
-  @grid_pixel_indexes_2d_slim_from ROps g (rows m, cols m) (sy, sx) (oy, ox) = map (fun p => IZR (fst p * cols m + snd p)) (unmasked m).
-Proof. exact grid_of_mask_indexes_to_itself. Qed.
+  @grid_pixel_indexes_2d_slim_from ROps g (rows m, cols m) (sy, sx) (oy, ox) = map (fun p => IZR (fst p * cols m + snd p)) (unmasked m)) /\
+  (* grid1_of_mask_indexes_to_itself *)
+  (forall (m : list bool) s o, 0 < s ->
+  map (fun x => @pixel_coordinates_1d_from ROps x (Z.of_nat (length m)) s o) (@grid_1d_slim_via_mask_from ROps m s o) = unmasked1 m).
+Proof. exact (conj grid_of_mask_indexes_to_itself (grid1_of_mask_indexes_to_itself)). Qed.
 
-(* ---- 5. continuous pixel coordinates: they are the distance from the top-left corner of the extent in pixel units; the
-        conversion and its inverse compose to the identity both ways; the integer index is their floor *)
-Theorem C02_pixels_formula : forall g H W sy sx oy ox, sy <> 0 -> sx <> 0 ->
+(* ---- 5. continuous pixel coordinates: they are the distance from the top-left corner of the extent in pixel units; the conversion and
+   its inverse compose to the identity both ways; the integer index is their floor *)
+Theorem C02_continuous_pixel_coordinates :
+  (* pixels_formula *)
+  (forall g H W sy sx oy ox, sy <> 0 -> sx <> 0 ->
   @grid_pixels_2d_slim_from ROps g (H, W) (sy, sx) (oy, ox) =
-  map (fun c => (((oy + IZR H * sy / 2) - fst c) / sy, (snd c - (ox - IZR W * sx / 2)) / sx)) g.
-Proof. exact pixels_are_spec. Qed.
-Theorem C02_scaled_of_pixels : forall g H W sy sx oy ox, sy <> 0 -> sx <> 0 ->
-  @grid_scaled_2d_slim_from ROps (@grid_pixels_2d_slim_from ROps g (H, W) (sy, sx) (oy, ox)) (H, W) (sy, sx) (oy, ox) = g.
-Proof. exact scaled_of_pixels. Qed.
-Theorem C02_pixels_of_scaled : forall g H W sy sx oy ox, sy <> 0 -> sx <> 0 ->
-  @grid_pixels_2d_slim_from ROps (@grid_scaled_2d_slim_from ROps g (H, W) (sy, sx) (oy, ox)) (H, W) (sy, sx) (oy, ox) = g.
-Proof. exact pixels_of_scaled. Qed.
-Theorem C02_centres_are_floor_of_pixels : forall g H W sy sx oy ox, sy <> 0 -> sx <> 0 ->
+  map (fun c => (((oy + IZR H * sy / 2) - fst c) / sy, (snd c - (ox - IZR W * sx / 2)) / sx)) g) /\
+  (* scaled_of_pixels *)
+  (forall g H W sy sx oy ox, sy <> 0 -> sx <> 0 ->
+  @grid_scaled_2d_slim_from ROps (@grid_pixels_2d_slim_from ROps g (H, W) (sy, sx) (oy, ox)) (H, W) (sy, sx) (oy, ox) = g) /\
+  (* pixels_of_scaled *)
+  (forall g H W sy sx oy ox, sy <> 0 -> sx <> 0 ->
+  @grid_pixels_2d_slim_from ROps (@grid_scaled_2d_slim_from ROps g (H, W) (sy, sx) (oy, ox)) (H, W) (sy, sx) (oy, ox) = g) /\
+  (* centres_are_floor_of_pixels *)
+  (forall g H W sy sx oy ox, sy <> 0 -> sx <> 0 ->
   Forall (fun p => 0 <= fst p /\ 0 <= snd p) (@grid_pixels_2d_slim_from ROps g (H, W) (sy, sx) (oy, ox)) ->
   @grid_pixel_centres_2d_slim_from ROps g (H, W) (sy, sx) (oy, ox) =
-  map (fun p => (IZR (Rfloor (fst p)), IZR (Rfloor (snd p)))) (@grid_pixels_2d_slim_from ROps g (H, W) (sy, sx) (oy, ox)).
-Proof. exact centres_are_floor_of_pixels. Qed.
+  map (fun p => (IZR (Rfloor (fst p)), IZR (Rfloor (snd p)))) (@grid_pixels_2d_slim_from ROps g (H, W) (sy, sx) (oy, ox))).
+Proof. exact (conj pixels_are_spec (conj scaled_of_pixels (conj pixels_of_scaled (centres_are_floor_of_pixels)))). Qed.
 
-(* ---- 6. shape-based mask constructors: pixel (i,j) is unmasked iff its centre, measured relative to the mask origin
-        (centre_spec with origin (0,0)), satisfies the radial inequality about the requested centre.  [offset] is that
-        centre minus the requested centre, as (dy, dx). *)
-Theorem C02_circular_exact : forall H W sy sx r cy cx, sy <> 0 -> sx <> 0 ->
-  @mask_2d_circular_from ROps (H, W) (sy, sx) r (cy, cx) = mask_of (H, W) (@circ_inside ROps (H, W) (sy, sx) r (cy, cx)).
-Proof. exact circular_is_spec. Qed.
-Theorem C02_circular_element : forall H W sy sx r cy cx i j, sy <> 0 -> sx <> 0 -> (0 <= i < H)%Z -> (0 <= j < W)%Z ->
+(* ---- 6. shape-based mask constructors (util layer): pixel (i,j) is unmasked iff its centre, measured with origin (0,0) (centre_spec with
+   origin (0,0)), satisfies the radial inequality about the requested centre.  [offset] is that centre minus the requested centre, as (dy, dx). *)
+Theorem C02_circular_exact :
+  (* circular_exact *)
+  (forall H W sy sx r cy cx, sy <> 0 -> sx <> 0 ->
+  @mask_2d_circular_from ROps (H, W) (sy, sx) r (cy, cx) = mask_of (H, W) (@circ_inside ROps (H, W) (sy, sx) r (cy, cx))) /\
+  (* circular_element *)
+  (forall H W sy sx r cy cx i j, sy <> 0 -> sx <> 0 -> (0 <= i < H)%Z -> (0 <= j < W)%Z ->
   getm (@mask_2d_circular_from ROps (H, W) (sy, sx) r (cy, cx)) (i, j) = false <->
-  sqrt (((IZR (H - 1) / 2 - IZR i) * sy - cy) ^ 2 + ((IZR j - IZR (W - 1) / 2) * sx - cx) ^ 2) <= r.
-Proof. exact circular_element_explicit. Qed.
-Theorem C02_annular_exact : forall H W sy sx ri ro cy cx, sy <> 0 -> sx <> 0 ->
+  sqrt (((IZR (H - 1) / 2 - IZR i) * sy - cy) ^ 2 + ((IZR j - IZR (W - 1) / 2) * sx - cx) ^ 2) <= r).
+Proof. exact (conj circular_is_spec (circular_element_explicit)). Qed.
+Theorem C02_annular_and_anti_annular_exact :
+  (* annular_exact *)
+  (forall H W sy sx ri ro cy cx, sy <> 0 -> sx <> 0 ->
   @mask_2d_circular_annular_from ROps (H, W) (sy, sx) ri ro (cy, cx) =
-  mask_of (H, W) (@ann_inside ROps (H, W) (sy, sx) ri ro (cy, cx)).
-Proof. exact annular_is_spec. Qed.
-Theorem C02_anti_annular_exact : forall H W sy sx ri ro ro2 cy cx, sy <> 0 -> sx <> 0 ->
+  mask_of (H, W) (@ann_inside ROps (H, W) (sy, sx) ri ro (cy, cx))) /\
+  (* anti_annular_exact *)
+  (forall H W sy sx ri ro ro2 cy cx, sy <> 0 -> sx <> 0 ->
   @mask_2d_circular_anti_annular_from ROps (H, W) (sy, sx) ri ro ro2 (cy, cx) =
-  mask_of (H, W) (@anti_inside ROps (H, W) (sy, sx) ri ro ro2 (cy, cx)).
-Proof. exact anti_annular_is_spec. Qed.
+  mask_of (H, W) (@anti_inside ROps (H, W) (sy, sx) ri ro ro2 (cy, cx))).
+Proof. exact (conj annular_is_spec (anti_annular_is_spec)). Qed.
+
 (* the squared predicates used by the *_inside specifications are the inequalities on the distance itself *)
-Theorem C02_sqrt_le_meaning : forall a r, 0 <= a -> (@sqrt_le ROps a r = true <-> sqrt a <= r).
-Proof. exact sqrt_le_iff. Qed.
-Theorem C02_sqrt_ge_meaning : forall a r, 0 <= a -> (@sqrt_ge ROps a r = true <-> r <= sqrt a).
-Proof. exact sqrt_ge_iff. Qed.
-(* elliptical constructors.  mask_2d_elliptical_from / mask_2d_elliptical_annular_from / elliptical_radius_from are
-   GENERATED over R only (they call np.arctan2, np.radians, np.sin, np.cos -- translated to atan2R, radiansR, sin, cos,
-   NumPy's oracle contract spelled out in the header of Gen_geometry.v).  The unmasked pixels are exactly those whose
-   offset (dy, dx), rotated clockwise by the angle (degrees, counter-clockwise from the positive x-axis), satisfies
-   sqrt(x'^2 + (y'/q)^2) <= R  (annular: inner ellipse >= R_in and outer ellipse <= R_out). *)
-Theorem C02_elliptical_exact : forall H W sy sx R q angle cy cx, sy <> 0 -> sx <> 0 -> q <> 0 ->
+Theorem C02_sqrt_predicates_meaning :
+  (* sqrt_le_meaning *)
+  (forall a r, 0 <= a -> (@sqrt_le ROps a r = true <-> sqrt a <= r)) /\
+  (* sqrt_ge_meaning *)
+  (forall a r, 0 <= a -> (@sqrt_ge ROps a r = true <-> r <= sqrt a)).
+Proof. exact (conj sqrt_le_iff (sqrt_ge_iff)). Qed.
+
+(* ---- 7. elliptical constructors.  mask_2d_elliptical_from / mask_2d_elliptical_annular_from / elliptical_radius_from are GENERATED over R only
+   (np.arctan2, np.radians, np.sin, np.cos -> atan2R, radiansR, sin, cos; NumPy's oracle contract is spelled out in the header of Gen_geometry.v).
+   The unmasked pixels are exactly those whose offset (dy, dx), rotated clockwise by the angle (degrees, counter-clockwise from the positive
+   x-axis), satisfies sqrt(x'^2 + (y'/q)^2) <= R  (annular: inner ellipse >= R_in and outer ellipse <= R_out). *)
+Theorem C02_elliptical_exact :
+  (* elliptical_exact *)
+  (forall H W sy sx R q angle cy cx, sy <> 0 -> sx <> 0 -> q <> 0 ->
   mask_2d_elliptical_from (H, W) (sy, sx) R q angle (cy, cx) =
-  mask_of (H, W) (@ell_inside ROps (H, W) (sy, sx) R q (cos (angle * PI / 180), sin (angle * PI / 180)) (cy, cx)).
-Proof. exact elliptical_R_is_spec. Qed.
-Theorem C02_elliptical_annular_exact : forall H W sy sx Ri qi ai Ro qo ao cy cx, sy <> 0 -> sx <> 0 -> qi <> 0 -> qo <> 0 ->
+  mask_of (H, W) (@ell_inside ROps (H, W) (sy, sx) R q (cos (angle * PI / 180), sin (angle * PI / 180)) (cy, cx))) /\
+  (* elliptical_annular_exact *)
+  (forall H W sy sx Ri qi ai Ro qo ao cy cx, sy <> 0 -> sx <> 0 -> qi <> 0 -> qo <> 0 ->
   mask_2d_elliptical_annular_from (H, W) (sy, sx) Ri qi ai Ro qo ao (cy, cx) =
   mask_of (H, W) (@ellann_inside ROps (H, W) (sy, sx) Ri qi (cos (ai * PI / 180), sin (ai * PI / 180)) Ro qo
-                                 (cos (ao * PI / 180), sin (ao * PI / 180)) (cy, cx)).
-Proof. exact elliptical_annular_R_is_spec. Qed.
-(* the executable form run against the implementation (Model/C02x.v: the angle enters as its (cos, sin) pair) is the
-   generated code, for every angle: the angle-addition step is proved, not assumed *)
-Theorem C02_elliptical_executable_model : forall H W sy sx R q angle cy cx, sy <> 0 -> sx <> 0 -> q <> 0 ->
+                                 (cos (ao * PI / 180), sin (ao * PI / 180)) (cy, cx))).
+Proof. exact (conj elliptical_R_is_spec (elliptical_annular_R_is_spec)). Qed.
+
+(* the executable forms run against the implementation (Model/C02x.v: the angle enters as its (cos, sin) pair; util and class layer) are
+   the generated code, for every angle: the angle-addition step is proved, not assumed *)
+Theorem C02_elliptical_executable_models :
+  (* elliptical_executable_model *)
+  (forall H W sy sx R q angle cy cx, sy <> 0 -> sx <> 0 -> q <> 0 ->
   mask_2d_elliptical_from (H, W) (sy, sx) R q angle (cy, cx) =
-  @mask_2d_elliptical_from_cs ROps (H, W) (sy, sx) R q (cos (angle * PI / 180), sin (angle * PI / 180)) (cy, cx).
-Proof. exact elliptical_R_is_cs. Qed.
-Theorem C02_elliptical_annular_executable_model : forall H W sy sx Ri qi ai Ro qo ao cy cx,
+  @mask_2d_elliptical_from_cs ROps (H, W) (sy, sx) R q (cos (angle * PI / 180), sin (angle * PI / 180)) (cy, cx)) /\
+  (* elliptical_annular_executable_model *)
+  (forall H W sy sx Ri qi ai Ro qo ao cy cx,
   sy <> 0 -> sx <> 0 -> qi <> 0 -> qo <> 0 ->
   mask_2d_elliptical_annular_from (H, W) (sy, sx) Ri qi ai Ro qo ao (cy, cx) =
   @mask_2d_elliptical_annular_from_cs ROps (H, W) (sy, sx) Ri qi (cos (ai * PI / 180), sin (ai * PI / 180)) Ro qo
-                                       (cos (ao * PI / 180), sin (ao * PI / 180)) (cy, cx).
-Proof. exact elliptical_annular_R_is_cs. Qed.
-Theorem C02_elliptical_radius_executable_model : forall y x angle q,
-  elliptical_radius_from y x angle q = @elliptical_radius_from_cs ROps y x (cos (angle * PI / 180), sin (angle * PI / 180)) q.
-Proof. exact elliptical_radius_R_is_cs. Qed.
+                                       (cos (ao * PI / 180), sin (ao * PI / 180)) (cy, cx)) /\
+  (* elliptical_radius_executable_model *)
+  (forall y x angle q,
+  elliptical_radius_from y x angle q = @elliptical_radius_from_cs ROps y x (cos (angle * PI / 180), sin (angle * PI / 180)) q) /\
+  (* Mask2D_elliptical_executable_model *)
+  (forall H W R q angle sy sx o cy cx inv, sy <> 0 -> sx <> 0 -> q <> 0 ->
+  Mask2D_elliptical (H, W) R q angle (sy, sx) o (cy, cx) inv =
+  @Mask2D_elliptical_cs ROps (H, W) R q (cos (angle * PI / 180), sin (angle * PI / 180)) (sy, sx) o (cy, cx) inv) /\
+  (* Mask2D_elliptical_annular_executable_model *)
+  (forall H W Ri qi ai Ro qo ao sy sx o cy cx inv,
+  sy <> 0 -> sx <> 0 -> qi <> 0 -> qo <> 0 ->
+  Mask2D_elliptical_annular (H, W) Ri qi ai Ro qo ao (sy, sx) o (cy, cx) inv =
+  @Mask2D_elliptical_annular_cs ROps (H, W) Ri qi (cos (ai * PI / 180), sin (ai * PI / 180)) Ro qo
+                                (cos (ao * PI / 180), sin (ao * PI / 180)) (sy, sx) o (cy, cx) inv).
+Proof. exact (conj elliptical_R_is_cs (conj elliptical_annular_R_is_cs (conj elliptical_radius_R_is_cs (conj Mask2D_elliptical_is_cs (Mask2D_elliptical_annular_is_cs))))). Qed.
 Theorem C02_polar_form : forall y x, let r := sqrt (x * x + y * y) in r * cos (atan2R y x) = x /\ r * sin (atan2R y x) = y.
 Proof. exact polar. Qed.
+
+(* ---- 8. the CLASS layer of the mask constructors (Mask2D.all_false / circular / circular_annular / circular_anti_annular / elliptical /
+   elliptical_annular, generated from mask_2d.py).  An object is (content, pixel_scales, origin).  The content is the documented shape with
+   pixel centres measured from origin (0,0): the `origin` argument is stored and does NOT enter the shape; invert = True complements it. *)
+Theorem C02_Mask2D_constructor_objects :
+  (* Mask2D_all_false_object *)
+  (forall sh s o inv, @Mask2D_all_false ROps sh s o inv = (mask_inv inv (mask_of sh (fun _ => true)), s, o)) /\
+  (* Mask2D_circular_object *)
+  (forall H W r sy sx o cy cx inv, sy <> 0 -> sx <> 0 ->
+  @Mask2D_circular ROps (H, W) r (sy, sx) o (cy, cx) inv = (mask_inv inv (mask_of (H, W) (@circ_inside ROps (H, W) (sy, sx) r (cy, cx))), (sy, sx), o)) /\
+  (* Mask2D_circular_annular_object *)
+  (forall H W ri ro sy sx o cy cx inv, sy <> 0 -> sx <> 0 ->
+  @Mask2D_circular_annular ROps (H, W) ri ro (sy, sx) o (cy, cx) inv =
+  (mask_inv inv (mask_of (H, W) (@ann_inside ROps (H, W) (sy, sx) ri ro (cy, cx))), (sy, sx), o)) /\
+  (* Mask2D_circular_anti_annular_object *)
+  (forall H W ri ro ro2 sy sx o cy cx inv, sy <> 0 -> sx <> 0 ->
+  @Mask2D_circular_anti_annular ROps (H, W) ri ro ro2 (sy, sx) o (cy, cx) inv =
+  (mask_inv inv (mask_of (H, W) (@anti_inside ROps (H, W) (sy, sx) ri ro ro2 (cy, cx))), (sy, sx), o)).
+Proof. exact (conj Mask2D_all_false_obj (conj Mask2D_circular_obj (conj Mask2D_annular_obj (Mask2D_anti_annular_obj)))). Qed.
+Theorem C02_Mask2D_elliptical_objects :
+  (* Mask2D_elliptical_object *)
+  (forall H W R q angle sy sx o cy cx inv, sy <> 0 -> sx <> 0 -> q <> 0 ->
+  Mask2D_elliptical (H, W) R q angle (sy, sx) o (cy, cx) inv =
+  (mask_inv inv (mask_of (H, W) (@ell_inside ROps (H, W) (sy, sx) R q (cos (angle * PI / 180), sin (angle * PI / 180)) (cy, cx))), (sy, sx), o)) /\
+  (* Mask2D_elliptical_annular_object *)
+  (forall H W Ri qi ai Ro qo ao sy sx o cy cx inv, sy <> 0 -> sx <> 0 -> qi <> 0 -> qo <> 0 ->
+  Mask2D_elliptical_annular (H, W) Ri qi ai Ro qo ao (sy, sx) o (cy, cx) inv =
+  (mask_inv inv (mask_of (H, W) (@ellann_inside ROps (H, W) (sy, sx) Ri qi (cos (ai * PI / 180), sin (ai * PI / 180)) Ro qo
+                                                (cos (ao * PI / 180), sin (ao * PI / 180)) (cy, cx))), (sy, sx), o)).
+Proof. exact (conj Mask2D_elliptical_obj (Mask2D_elliptical_annular_obj)). Qed.
+
+(* the geometry handed out by the constructed mask (Mask2D.geometry): the requested shape, the pixel scales and origin as given *)
+Theorem C02_Mask2D_circular_geometry : forall H W r sy sx o cy cx, (1 <= H)%Z -> (0 <= W)%Z -> sy <> 0 -> sx <> 0 ->
+  @Mask2D_geometry ROps (@Mask2D_circular ROps (H, W) r (sy, sx) o (cy, cx) false) = ((H, W), (sy, sx), o).
+Proof. exact Mask2D_circular_geometry. Qed.
+
+(* WHERE the shape sits in the mask's own coordinate system (the one Grid2D.from_mask / the extent report, which includes the origin): the
+   offset (dy, dx) that all five shape predicates are evaluated at is the pixel's centre in the mask's own coordinates -- for ANY mask origin
+   o -- minus (o + centre); so pixel (i,j) of Mask2D.circular is unmasked iff its centre y = o_y + ((H-1)/2 - i) s_y, x = o_x + (j - (W-1)/2) s_x
+   lies within the radius of the point origin + centre.  `centre` is an offset from the mask origin -- that is exactly what the code does. *)
+Theorem C02_shapes_are_about_origin_plus_centre :
+  (* offset_is_relative_to_origin_plus_centre *)
+  (forall H W sy sx oy ox cy cx i j,
+  @offset ROps (H, W) (sy, sx) (cy, cx) (i, j) =
+  (fst (@centre_spec ROps (H, W) (sy, sx) (oy, ox) (i, j)) - (oy + cy), snd (@centre_spec ROps (H, W) (sy, sx) (oy, ox) (i, j)) - (ox + cx))) /\
+  (* circular_about_origin_plus_centre *)
+  (forall H W r sy sx oy ox cy cx i j, sy <> 0 -> sx <> 0 -> (0 <= i < H)%Z -> (0 <= j < W)%Z ->
+  let M := @Mask2D_circular ROps (H, W) r (sy, sx) (oy, ox) (cy, cx) false in
+  let p := @centre_spec ROps (H, W) (sy, sx) (oy, ox) (i, j) in
+  getm (fst (fst M)) (i, j) = false <-> sqrt ((fst p - (oy + cy)) ^ 2 + (snd p - (ox + cx)) ^ 2) <= r).
+Proof. exact (conj offset_relative_to_origin_plus_centre (circular_about_origin_plus_centre)). Qed.
+
+(* Grid2D.from_mask of the constructed mask: the centres (with the origin) of the pixels inside the circle, row-major, carrying the mask *)
+Theorem C02_circular_grid : forall H W r sy sx oy ox cy cx, (1 <= H)%Z -> (0 <= W)%Z -> sy <> 0 -> sx <> 0 ->
+  let M := @Mask2D_circular ROps (H, W) r (sy, sx) (oy, ox) (cy, cx) false in
+  @Grid2D_from_mask ROps M =
+  (map (@centre_spec ROps (H, W) (sy, sx) (oy, ox)) (filter (@circ_inside ROps (H, W) (sy, sx) r (cy, cx)) (coords H W)), M).
+Proof. exact circular_grid. Qed.
+
+(* ---- 9. Grid2D.uniform / from_mask, Mask2D.derive_grid.all_false / unmasked (generated from uniform_2d.py, derive/grid_2d.py).  A Grid2D object
+   is (slim values, mask object).  Entry i * W + j of the uniform grid is the centre of pixel (i,j) -- the flattened index IS the position in the
+   grid -- and the grid converts to the flat indices 0 .. H W - 1 *)
+Theorem C02_uniform_grid :
+  (* uniform_grid_object *)
+  (forall H W sy sx oy ox, (1 <= H)%Z -> (0 <= W)%Z -> sy <> 0 -> sx <> 0 ->
+  @Grid2D_uniform ROps (H, W) (sy, sx) (oy, ox) =
+  (map (@centre_spec ROps (H, W) (sy, sx) (oy, ox)) (coords H W), (mask_of (H, W) (fun _ => true), (sy, sx), (oy, ox)))) /\
+  (* uniform_grid_nth *)
+  (forall H W sy sx oy ox i j d, (0 <= i < H)%Z -> (0 <= j < W)%Z -> sy <> 0 -> sx <> 0 ->
+  nth (Z.to_nat (i * W + j)) (fst (@Grid2D_uniform ROps (H, W) (sy, sx) (oy, ox))) d =
+  (oy + (IZR (H - 1) / 2 - IZR i) * sy, ox + (IZR j - IZR (W - 1) / 2) * sx)) /\
+  (* uniform_grid_indexes *)
+  (forall H W sy sx oy ox, (1 <= H)%Z -> (0 <= W)%Z -> 0 < sy -> 0 < sx ->
+  @grid_pixel_indexes_2d_slim_from ROps (fst (@Grid2D_uniform ROps (H, W) (sy, sx) (oy, ox))) (H, W) (sy, sx) (oy, ox) = map IZR (seqZ (H * W))).
+Proof. exact (conj uniform_obj (conj uniform_nth (uniform_indexes))). Qed.
+Theorem C02_coords_flat_index : forall H W, (0 <= H)%Z -> (0 <= W)%Z -> map (fun p => (fst p * W + snd p)%Z) (coords H W) = seqZ (H * W).
+Proof. exact coords_flat_index. Qed.
+Theorem C02_from_mask_and_derive_grid_objects :
+  (* from_mask_object *)
+  (forall (m : mask) sy sx oy ox, sy <> 0 -> sx <> 0 ->
+  @Grid2D_from_mask ROps (m, (sy, sx), (oy, ox)) =
+  (map (@centre_spec ROps (rows m, cols m) (sy, sx) (oy, ox)) (unmasked m), (m, (sy, sx), (oy, ox)))) /\
+  (* derive_unmasked_is_from_mask *)
+  (forall M, @DeriveGrid2D_unmasked ROps M = @Grid2D_from_mask ROps M) /\
+  (* derive_all_false_object *)
+  (forall (m : mask) sy sx oy ox, (1 <= rows m)%Z -> sy <> 0 -> sx <> 0 ->
+  @DeriveGrid2D_all_false ROps (m, (sy, sx), (oy, ox)) =
+  (map (@centre_spec ROps (rows m, cols m) (sy, sx) (oy, ox)) (coords (rows m) (cols m)),
+   (mask_of (rows m, cols m) (fun _ => true), (sy, sx), (oy, ox)))).
+Proof. exact (conj from_mask_obj (conj derive_unmasked_is_from_mask (derive_all_false_obj))). Qed.
+
+(* ---- 10. Geometry2D methods (generated from geometry_2d.py) applied to a Grid2D (vals, GM) that carries its OWN mask GM -- any content, any
+   shape, any pixel scales / origin.  The conversions use the GEOMETRY's shape (H, W), scales and origin; GM is only passed on.  The scalar
+   methods are the util functions at the geometry's attributes. *)
+Theorem C02_geometry_methods_use_geometry_shape :
+  (* geometry_grid_methods_use_geometry_shape *)
+  (forall sh s o vals GM,
+  @Geometry2D_grid_pixels_2d_from ROps sh s o (vals, GM) = (@grid_pixels_2d_slim_from ROps vals sh s o, GM) /\
+  @Geometry2D_grid_pixel_centres_2d_from ROps sh s o (vals, GM) = (@grid_pixel_centres_2d_slim_from ROps vals sh s o, GM) /\
+  @Geometry2D_grid_pixel_indexes_2d_from ROps sh s o (vals, GM) = (@grid_pixel_indexes_2d_slim_from ROps vals sh s o, GM) /\
+  @Geometry2D_grid_scaled_2d_from ROps sh s o (vals, GM) = (@grid_scaled_2d_slim_from ROps vals sh s o, GM)) /\
+  (* geometry_scalar_methods *)
+  (forall sh s o c p,
+  @Geometry2D_pixel_coordinates_2d_from ROps sh s o c = @pixel_coordinates_2d_from ROps c sh s o /\
+  @Geometry2D_scaled_coordinates_2d_from ROps sh s o p = @scaled_coordinates_2d_from ROps p sh s o /\
+  @Geometry2D_central_pixel_coordinates ROps sh s o = @central_pixel_coordinates_2d_from ROps sh /\
+  @Geometry2D_central_scaled_coordinates ROps sh s o = @central_scaled_coordinate_2d_from ROps sh s o).
+Proof. exact (conj geometry_grid_methods (geometry_scalar_methods)). Qed.
+Theorem C02_geometry_index_of_interior_points : forall H W sy sx oy ox vals GM ps, 0 < sy -> 0 < sx ->
+  Forall2 (fun c p => in_array (H, W) p /\ in_pixel (H, W) (sy, sx) (oy, ox) p c) vals ps ->
+  @Geometry2D_grid_pixel_centres_2d_from ROps (H, W) (sy, sx) (oy, ox) (vals, GM) = (map (fun p => (IZR (fst p), IZR (snd p))) ps, GM) /\
+  @Geometry2D_grid_pixel_indexes_2d_from ROps (H, W) (sy, sx) (oy, ox) (vals, GM) = (map (fun p => IZR (fst p * W + snd p)) ps, GM).
+Proof. exact geometry_index_of_interior_points. Qed.
+Theorem C02_geometry_pixels_scaled_inverse : forall H W sy sx oy ox vals GM, sy <> 0 -> sx <> 0 ->
+  @Geometry2D_grid_scaled_2d_from ROps (H, W) (sy, sx) (oy, ox) (@Geometry2D_grid_pixels_2d_from ROps (H, W) (sy, sx) (oy, ox) (vals, GM)) = (vals, GM) /\
+  @Geometry2D_grid_pixels_2d_from ROps (H, W) (sy, sx) (oy, ox) (@Geometry2D_grid_scaled_2d_from ROps (H, W) (sy, sx) (oy, ox) (vals, GM)) = (vals, GM).
+Proof. exact geometry_pixels_scaled_inverse. Qed.
+
+(* scaled_coordinate_2d_to_scaled_at_pixel_centre_from: a point of the half-open square of pixel p of the array snaps to p's centre; idempotent *)
+Theorem C02_snap_to_pixel_centre :
+  (* snap_to_pixel_centre *)
+  (forall H W sy sx oy ox c p, 0 < sy -> 0 < sx -> in_array (H, W) p -> in_pixel (H, W) (sy, sx) (oy, ox) p c ->
+  @Geometry2D_scaled_coordinate_2d_to_scaled_at_pixel_centre_from ROps (H, W) (sy, sx) (oy, ox) c = @centre_spec ROps (H, W) (sy, sx) (oy, ox) p) /\
+  (* snap_idempotent *)
+  (forall H W sy sx oy ox c p, 0 < sy -> 0 < sx -> in_array (H, W) p -> in_pixel (H, W) (sy, sx) (oy, ox) p c ->
+  let snap := @Geometry2D_scaled_coordinate_2d_to_scaled_at_pixel_centre_from ROps (H, W) (sy, sx) (oy, ox) in snap (snap c) = snap c).
+Proof. exact (conj snap_to_pixel_centre (snap_idempotent)). Qed.
+
+(* ---- 11. the native (3-D) index routine geometry_util.grid_pixel_centres_2d_from: row by row it is the slim routine *)
+Theorem C02_native_routine :
+  (* native_is_rowwise *)
+  (forall g sh s o,
+  @grid_pixel_centres_2d_from ROps g sh s o = map (fun row => @grid_pixel_centres_2d_slim_from ROps row sh s o) g) /\
+  (* native_index_of_interior_points *)
+  (forall H W sy sx oy ox g ps, 0 < sy -> 0 < sx ->
+  Forall2 (Forall2 (fun c p => in_array (H, W) p /\ in_pixel (H, W) (sy, sx) (oy, ox) p c)) g ps ->
+  @grid_pixel_centres_2d_from ROps g (H, W) (sy, sx) (oy, ox) = map (map (fun p => (IZR (fst p), IZR (snd p)))) ps).
+Proof. exact (conj native_is_rowwise (native_index_of_interior_points)). Qed.
+
+(* ---- 12. 1-D class layer (any origin, any pixel scale): Grid1D.uniform, Grid1D.from_mask, Mask1D.geometry.extent *)
+Theorem C02_1d_objects :
+  (* uniform_1d_object *)
+  (forall n s o, (0 <= n)%Z -> s <> 0 ->
+  @Grid1D_uniform ROps n s o = (map (fun j => o + (IZR j - IZR (n - 1) / 2) * s) (seqZ n), (full1 false n, s, o))) /\
+  (* from_mask_1d_object *)
+  (forall (m : list bool) s o, s <> 0 ->
+  @Grid1D_from_mask ROps (m, s, o) = (map (@centre1_spec ROps (Z.of_nat (length m)) s o) (unmasked1 m), (m, s, o))) /\
+  (* Mask1D_geometry_extent *)
+  (forall (m : list bool) s o,
+  let g := @Mask1D_geometry ROps (m, s, o) in
+  @Geometry1D_extent ROps (fst (fst g)) (snd (fst g)) (snd g) = (o - IZR (Z.of_nat (length m)) * s / 2, o + IZR (Z.of_nat (length m)) * s / 2)).
+Proof. exact (conj uniform1_obj (conj from_mask1_obj (Mask1D_geometry_extent))). Qed.
+
+(* KNOWN FINDING (props/C02.findings.json, fixes/C02_derive_grid_1d_all_false.diff): the body of Mask1D.derive_grid.all_false as it is in the
+   repository pairs the grid of the UNMASKED pixels with the all-false mask: fewer values than the mask has pixels *)
+Theorem C02_derive_all_false_1d_refuted : exists M, length (fst (DeriveGrid1D_all_false_current M)) <> length (unmasked1 (fst (fst (snd (DeriveGrid1D_all_false_current M))))).
+Proof. exact derive_all_false_1d_refuted. Qed.
+(* ... and the REPAIRED body (values from grid_1d_slim_via_shape_slim_from, as DeriveGrid2D.all_false does) returns every pixel's centre *)
+Theorem C02_derive_all_false_1d_repaired : forall (m : list bool) s o, s <> 0 ->
+  DeriveGrid1D_all_false_repaired (m, s, o) =
+  (map (@centre1_spec ROps (Z.of_nat (length m)) s o) (seqZ (Z.of_nat (length m))), (full1 false (Z.of_nat (length m)), s, o)).
+Proof. exact derive_all_false_1d_repaired_ok. Qed.
+
+(* ---- 13. with property C01's development (slim <-> native): Grid2D.from_mask(mask).native -- C01's native_from applied to the slim values --
+   holds the centre of the k-th unmasked pixel AT that pixel and (0, 0) at masked pixels.  C01 indexes pixels by nat pairs (native_for_slim =
+   the row-major unmasked pixels, C01_native_for_slim_is_rowmajor_unmasked); zpair injects them into Z; the two enumerations agree. *)
+Theorem C02_from_mask_native :
+  (* from_mask_native *)
+  (forall (m : mask) H W sy sx oy ox k d, Model.C01.rectb H W m = true -> (0 < H)%nat -> sy <> 0 -> sx <> 0 ->
+  (k < Model.C01.count m)%nat ->
+  let G := @Grid2D_from_mask ROps (m, (sy, sx), (oy, ox)) in
+  let p := nth k (Model.C01.native_for_slim m) d in
+  Model.C01.get2 (0, 0) (Model.C01.native_from (0, 0) m (fst G)) p = @centre_spec ROps (rows m, cols m) (sy, sx) (oy, ox) (zpair p)) /\
+  (* from_mask_native_masked *)
+  (forall (m : mask) H W sy sx oy ox p, Model.C01.rectb H W m = true -> (0 < H)%nat ->
+  Model.C01.mget m p = true ->
+  Model.C01.get2 (0, 0) (Model.C01.native_from (0, 0) m (fst (@Grid2D_from_mask ROps (m, (sy, sx), (oy, ox))))) p = (0, 0)) /\
+  (* unmasked_is_C01_unmasked *)
+  (forall (m : mask), unmasked m = map zpair (Model.C01.unmasked_spec m)).
+Proof. exact (conj from_mask_native (conj from_mask_native_masked (unmasked_is_C01))). Qed.
 
 (* ------------------------------------------------------------------ non-vacuity: the hypothesis sets are met by non-trivial
    inputs (non-square shape, anisotropic scales, unequal non-zero origin), and the models run (QOps) *)
@@ -188,33 +463,78 @@ Example C02_ex_run_elliptical :  (* 3-4-5 angle, axis ratio 1/2 *)
   /\ length (unmasked (mask_of (5, 5)%Z (@ell_inside QOps (5, 5)%Z (1, 1)%Q 2%Q (1 # 2)%Q (4 # 5, 3 # 5)%Q (0, 0)%Q))) = 7%nat.
 Proof. split; vm_compute; reflexivity. Qed.
 
-Print Assumptions C02_centre_formula_grid.
-Print Assumptions C02_centre_formula_scalar.
-Print Assumptions C02_centre_formula_1d.
-Print Assumptions C02_centre_formula_scalar_1d.
+Example C02_ex_run_class_circular :   (* origin (5, -3) does not move the circle; invert complements *)
+  @Mask2D_circular QOps (3, 4)%Z 1%Q (1, 1)%Q (5, - 3)%Q (0, 1 # 2)%Q false =
+  ([[true; true; false; true]; [true; false; false; false]; [true; true; false; true]], (1, 1)%Q, (5, - 3)%Q)
+  /\ fst (fst (@Mask2D_circular QOps (3, 4)%Z 1%Q (1, 1)%Q (5, - 3)%Q (0, 1 # 2)%Q true)) =
+  [[false; false; true; false]; [false; true; true; true]; [false; false; true; false]].
+Proof. split; vm_compute; reflexivity. Qed.
+Example C02_ex_run_uniform :
+  @Grid2D_uniform QOps (2, 3)%Z (2, 1 # 2)%Q (1, - 1)%Q =
+  ([(2, - 3 # 2); (2, - 1); (2, - 1 # 2); (0, - 3 # 2); (0, - 1); (0, - 1 # 2)]%Q, ([[false; false; false]; [false; false; false]], (2, 1 # 2)%Q, (1, - 1)%Q)).
+Proof. vm_compute. reflexivity. Qed.
+Example C02_ex_run_geometry_foreign_grid :   (* a 2 x 1 Grid2D queried against a 3 x 4 geometry: flat index with the geometry's W = 4 *)
+  fst (@Geometry2D_grid_pixel_indexes_2d_from QOps (3, 4)%Z (2, 1 # 2)%Q (1, - 1)%Q
+         ([(- 1 # 5, - 13 # 10); (3, 0 - 2)]%Q, ([[false]; [false]], (1, 1)%Q, (0, 0)%Q))) = [9; 0]%Q.
+Proof. vm_compute. reflexivity. Qed.
+Example C02_ex_native_hypotheses :
+  Forall2 (Forall2 (fun c p => in_array (3, 4)%Z p /\ in_pixel (3, 4)%Z (2, 1 / 2) (1, -1) p c))
+          [[(- 1 / 5, - 13 / 10)]; [(3, 0 - 2)]] [[(2, 1)%Z]; [(0, 0)%Z]].
+Proof.
+  repeat constructor; unfold in_pixel, cy_spec, cx_spec, two; cbn [T add sub mul div ofZ ROps fst snd];
+    change (3 - 1)%Z with 2%Z; change (4 - 1)%Z with 3%Z; try (cbv; congruence); lra.
+Qed.
+Example C02_ex_run_1d :
+  @Grid1D_uniform QOps 4%Z (1 # 2)%Q 1%Q = ([1 # 4; 3 # 4; 5 # 4; 7 # 4]%Q, ([false; false; false; false], (1 # 2)%Q, 1%Q))
+  /\ fst (@Grid1D_from_mask QOps ([false; true; false; false], (1 # 2)%Q, 1%Q)) = [1 # 4; 5 # 4; 7 # 4]%Q.
+Proof. split; vm_compute; reflexivity. Qed.
+
+Example C02_ex_extent_point_hypotheses :   (* a point of the half-open extent of the 3 x 4 geometry of the other examples *)
+  let '(xmin, xmax, ymin, ymax) := @Geometry2D_extent ROps (3, 4)%Z (2, 1 / 2) (1, -1) in ymin < - 1 / 5 <= ymax /\ xmin <= - 13 / 10 < xmax.
+Proof. rewrite (proj1 C02_extent_formula_and_edges). cbn [IZR IPR IPR_2]. lra. Qed.
+Example C02_ex_outside_hypotheses : @lo_spec ROps 4 (1 / 2) 1 - 1 / 2 < - 1 / 10 < @lo_spec ROps 4 (1 / 2) 1
+  /\ @pixel_coordinates_1d_from QOps (- 1 # 10)%Q 4%Z (1 # 2)%Q 1%Q = 0%Z.
+Proof. split; [unfold lo_spec, two; cbn [T add sub mul div ofZ ROps]; lra | vm_compute; reflexivity]. Qed.
+
+Example C02_ex_native_hypotheses_C01 :
+  let m := [[false; true; false; false]; [false; true; true; false]; [false; false; false; true]] in
+  Model.C01.rectb 3 4 m = true /\ Model.C01.count m = 8%nat /\ nth 2 (Model.C01.native_for_slim m) (0, 0)%nat = (0, 3)%nat.
+Proof. repeat split; vm_compute; reflexivity. Qed.
+
+Print Assumptions C02_centre_formulas.
+Print Assumptions C02_orientation.
 Print Assumptions C02_extent_is_union_of_squares.
-Print Assumptions C02_extent_formula.
-Print Assumptions C02_extent_1d_is_union_of_intervals.
-Print Assumptions C02_index_of_interior_point.
+Print Assumptions C02_extent_formula_and_edges.
+Print Assumptions C02_extent_1d.
+Print Assumptions C02_every_point_of_extent_has_its_pixel.
+Print Assumptions C02_every_point_of_extent_has_its_pixel_1d.
+Print Assumptions C02_pixel_of_point_unique.
 Print Assumptions C02_index_of_interior_points.
 Print Assumptions C02_index_of_interior_point_1d.
-Print Assumptions C02_index_centre_index.
-Print Assumptions C02_centre_index_centre.
-Print Assumptions C02_index_centre_index_1d.
+Print Assumptions C02_index_outside_extent_1d.
+Print Assumptions C02_round_trips.
 Print Assumptions C02_grid_of_mask_indexes_to_itself.
-Print Assumptions C02_pixels_formula.
-Print Assumptions C02_scaled_of_pixels.
-Print Assumptions C02_pixels_of_scaled.
-Print Assumptions C02_centres_are_floor_of_pixels.
+Print Assumptions C02_continuous_pixel_coordinates.
 Print Assumptions C02_circular_exact.
-Print Assumptions C02_circular_element.
-Print Assumptions C02_annular_exact.
-Print Assumptions C02_anti_annular_exact.
-Print Assumptions C02_sqrt_le_meaning.
-Print Assumptions C02_sqrt_ge_meaning.
+Print Assumptions C02_annular_and_anti_annular_exact.
+Print Assumptions C02_sqrt_predicates_meaning.
 Print Assumptions C02_elliptical_exact.
-Print Assumptions C02_elliptical_annular_exact.
-Print Assumptions C02_elliptical_executable_model.
-Print Assumptions C02_elliptical_annular_executable_model.
-Print Assumptions C02_elliptical_radius_executable_model.
+Print Assumptions C02_elliptical_executable_models.
 Print Assumptions C02_polar_form.
+Print Assumptions C02_Mask2D_constructor_objects.
+Print Assumptions C02_Mask2D_elliptical_objects.
+Print Assumptions C02_Mask2D_circular_geometry.
+Print Assumptions C02_shapes_are_about_origin_plus_centre.
+Print Assumptions C02_circular_grid.
+Print Assumptions C02_uniform_grid.
+Print Assumptions C02_coords_flat_index.
+Print Assumptions C02_from_mask_and_derive_grid_objects.
+Print Assumptions C02_geometry_methods_use_geometry_shape.
+Print Assumptions C02_geometry_index_of_interior_points.
+Print Assumptions C02_geometry_pixels_scaled_inverse.
+Print Assumptions C02_snap_to_pixel_centre.
+Print Assumptions C02_native_routine.
+Print Assumptions C02_1d_objects.
+Print Assumptions C02_derive_all_false_1d_refuted.
+Print Assumptions C02_derive_all_false_1d_repaired.
+Print Assumptions C02_from_mask_native.
